@@ -174,12 +174,11 @@ Example retry_monitor_accepts_reassignment :
   trace_ok rw_cfg 0 (model_trace rw_cfg 0 rw_evs) = true /\ trace_ok rw_cfg 0 (model_trace rw_cfg 0 rw_evs2) = true.
 Proof. exact (conj rw2_hypotheses (conj rw_accepted rw2_accepted)). Qed.
 
-(* ---- the retry bookkeeping once more: position 15 (e_early) rejects a model trace ----
+(* ---- regression: position 15 (e_early) when deduplication changes the operation set of an assigned task ----
    rw3_evs (ProofsMonW.v): retry count 1; while a worker holds a task, in-flight deduplication attaches a second operation
-   to it.  The model's t_retry keeps counting; retry_fold, which recognises the task by same_set of its operation list,
-   restarts at 0, and when the model fails the task at the limit e_early reads 0 <> 1. *)
-Example early_monitor_rejects_model_trace :
+   to it; the worker asks again twice and the model fails the task at the limit.  An earlier retry_fold recognised the task
+   by same_set of its operation list and restarted its count; p_step now recognises it by a shared operation id. *)
+Example early_monitor_accepts_deduplicated_task :
   (selectors_in_range (init rw3_cfg 0) rw3_evs /\ fresh_calls [] rw3_evs /\ bg_scripts_ok rw3_evs /\ learner_ids_unique rw3_evs /\ causes_ok rw3_evs) /\
-  trace_ok rw3_cfg 0 (model_trace rw3_cfg 0 rw3_evs) = false /\
-  trace_sub [0;1;2;3;4;5;6;7;8;9;10;11;12;13;14;16;17;18]%nat rw3_cfg 0 (model_trace rw3_cfg 0 rw3_evs) = true.
-Proof. exact (conj rw3_hypotheses (conj (proj1 rw3_rejected) rw3_others_accept)). Qed.
+  trace_ok rw3_cfg 0 (model_trace rw3_cfg 0 rw3_evs) = true.
+Proof. exact (conj rw3_hypotheses rw3_accepted). Qed.
